@@ -36,6 +36,10 @@ type PlanCase struct {
 	// chunk and the end record without a plan) and confirms the file only DoneDelayMs after it saw FileEnd
 	ReportDelayMs int `json:"report_delay_ms"`
 	DoneDelayMs   int `json:"done_delay_ms"`
+	// a report that arrives in the middle of the regular pass: every chunk takes ProgressDelayMs in the sender's progress callback, and
+	// the statistics callback that applyResumeInfo calls takes StatsDelayMs (both are display code in the CLI)
+	ProgressDelayMs int `json:"progress_delay_ms"`
+	StatsDelayMs    int `json:"stats_delay_ms"`
 }
 
 type PlanResult struct {
@@ -92,11 +96,18 @@ func runPlan(c PlanCase) (res PlanResult) {
 		mu.Lock()
 		res.Skipped, res.Verified, res.Stats = int(skipped), int(verified), true
 		mu.Unlock()
+		if c.StatsDelayMs > 0 {
+			time.Sleep(time.Duration(c.StatsDelayMs) * time.Millisecond)
+		}
 	}
 	// the CLI installs a progress callback; it runs between a worker's "frame counted" and "chunk done" steps. Make every other
 	// call slow so that the workers' steps cross.
 	var pcalls int64
 	sopts.ProgressFn = func(rel string, sent, total int64) {
+		if c.ProgressDelayMs > 0 {
+			time.Sleep(time.Duration(c.ProgressDelayMs) * time.Millisecond)
+			return
+		}
 		if atomic.AddInt64(&pcalls, 1)%2 == 1 {
 			time.Sleep(2 * time.Millisecond)
 		}
